@@ -35,7 +35,7 @@ ANCHORS = [
     "acnportal.acnsim.analysis:energy_cost",
     "acnportal.acnsim.analysis:demand_charge",
 ]
-REQUIRED = ["cost_checks_under_another_tariff_in_the_same_process", "sub_second_instants", "vector_lookups_with_periods_of_days_or_months", "lookups_judged", "vector_lookups", "interface_price_vectors", "cost_checks", "regime:wrapped-season",
+REQUIRED = ["vector_lookups_of_over_1000_periods", "cost_checks_under_another_tariff_in_the_same_process", "sub_second_instants", "vector_lookups_with_periods_of_days_or_months", "lookups_judged", "vector_lookups", "interface_price_vectors", "cost_checks", "regime:wrapped-season",
             "regime:weekend", "regime:weekday", "regime:leap-day"]
 BUDGET_S = {"quick": 240, "thorough": 3000}
 EXHAUSTIVE = {"quick": "all 14 calendar types x every day x boundary instants x 5 files",
@@ -189,6 +189,9 @@ def _run_vector(case, obs):
     rng = random.Random(case["seed"])
     period = rng.choice([1, 5, 7.5, 15, 60, 7, 13, 1440, 10080, 43200, 44640, 43380, 525600])
     n = rng.choice([1, 2, 24, 96, 288, 600]) if period <= 60 else rng.choice([1, 2, 5, 13, 40])
+    if period <= 15 and case["seed"] % 12 == 0:
+        n = rng.choice([1025, 2049, 8193, 10000])  # a month of 5-minute periods and more
+        obs.ev("vector_lookups_of_over_1000_periods")
     if period > 60:
         obs.ev("vector_lookups_with_periods_of_days_or_months")
     year = rng.choice(_years())
